@@ -1,5 +1,6 @@
 import EaselModel.Sqio.Geometry
 import EaselModel.Sqio.Tracker
+import EaselModel.Sqio.AfetchMain
 /-! # C07 — fetching by key, number or coordinates returns what a sequential scan returns
 
 Property theorems only (proofs are glue on `Sqio/Geometry.lean`, `Sqio/Tracker.lean`).
@@ -12,7 +13,8 @@ and skipping `start − actual_start` residues lands on residue `start` in each 
 Proved here: (2) for every layout satisfying the geometry (`lands_on_start_line`, `lands_on_start_residue`), (4) on the model, and
 the part of (1) that the code really guarantees (`bplrpl_sound_partial`: lines followed by another terminated line). The bracketed
 half of (1) is FALSE for the code (`bplrpl_unsound_*`, known finding `C07:seebuf:line-geometry-accepts-long-last-line`);
-(3) is tied by the differential run and the fetch = slice-of-scan monitor. -/
+(3) is tied by the differential run and the fetch = slice-of-scan monitor.
+(5) esl-afetch: `afetch_*` below (model `Sqio/AfetchModel.lean`, over the C06 index model and a Stockholm database as bytes). -/
 namespace EaselModel.Props.C07
 open EaselModel.Sqio EaselModel.Sqio.Geometry EaselModel.Sqio.Tracker
 
@@ -109,5 +111,109 @@ example : (run {} ([Ev.hdr] ++ [Ev.eol 5 4, Ev.eol 5 4] ++ [Ev.eol 3 2])).rpl = 
 /-- non-vacuity of `lands_on_start_line`: two complete lines `AC␣\n`-like (b = 3, r = 2), start = 5 -/
 example : FullLines (fun c : Nat => c != 0) 3 2 [[1, 1, 0], [1, 1, 0]] ∧ [[1, 1, 0], [1, 1, 0]].length = (5 - 1) / 2 := by
   refine ⟨⟨?_, ?_⟩, by decide⟩ <;> (intro ln h; simp at h; rcases h with rfl | rfl <;> decide)
+
+/-! ## (5) esl-afetch: fetching a named alignment from a multi-alignment Stockholm file
+
+`Afetch.createIndex` = `create_ssi_index()` of `miniapps/esl-afetch.c` (scan with `esl_msafile_Read`, `msa->offset`, name as primary key,
+accession as alias, `esl_newssi_Write`), `Afetch.onefetch` = `esl_msafile_PositionByKey` + `regurgitate_one_stockholm_entry`,
+`Afetch.seqFetch` = the specification (text of the first alignment a sequential pass finds under that name or accession);
+the database is `dbBytes rs trail`: the bytes of any list `rs` of well-formed records (`SRec.WF`: any skipped lines, header, body lines the
+parser continues on, terminator indented by any blanks/TABs, LF or CR LF line ends), followed by any skipped lines. -/
+section afetch
+open EaselModel.Afetch EaselModel.Msafile
+
+/-- (5a) the indexing scan stores, for every alignment, the offset at which its `esl_msafile_Read` began (just behind the previous
+    terminator line), its name and its accession — for every database of well-formed records -/
+theorem afetch_scan_offsets (rs : List SRec) (trail : List TLine) (h : ∀ r ∈ rs, r.WF)
+    (ht : ∀ l ∈ trail, leadLine l.1 = true ∧ LineWF l) :
+    scanDb (dbBytes rs trail) = some ((entries 0 rs).map (·.1)) :=
+  scanDb_records rs trail h ht
+
+/-- (5b) `esl-afetch --index` succeeds iff names are pairwise distinct and accessions are pairwise distinct (otherwise
+    `esl_newssi_Write` reports the duplicate and the tool ends without an index) -/
+theorem afetch_index_built_iff (fname : Msafile.Bytes) (rs : List SRec) (trail : List TLine) (h : DbOk fname rs trail) :
+    (createIndex fname (dbBytes rs trail)).isSome = true ↔ (rs.map SRec.name).Nodup ∧ (rs.filterMap SRec.acc).Nodup :=
+  createIndex_isSome_iff fname rs trail h
+
+/-- (5c) FETCH = SCAN.  For every database of well-formed records and the index the tool itself built for it, fetching by name or
+    by accession returns exactly the text of the alignment a sequential scan finds under that key (every line once, LF-terminated,
+    skipped lines in front of its header included, nothing of the next alignment), and an absent key is `not found`.
+    `hcross` (no accession equals a name) excludes the C06 known finding `C06:cross-class-duplicate`. -/
+theorem afetch_eq_scan (fname : Msafile.Bytes) (rs : List SRec) (trail : List TLine) (h : DbOk fname rs trail) (ssi : Msafile.Bytes)
+    (hc : createIndex fname (dbBytes rs trail) = some ssi)
+    (hcross : ∀ r ∈ rs, ∀ r' ∈ rs, r.acc ≠ some r'.name) (key : Msafile.Bytes) :
+    onefetch (dbBytes rs trail) ssi key = match seqFetch rs key with | some t => .ok t | none => .notfound :=
+  onefetch_eq_seqFetch fname rs trail h ssi hc hcross key
+
+/-- (5d) absent key ⇒ not found, never other data -/
+theorem afetch_absent_notfound (fname : Msafile.Bytes) (rs : List SRec) (trail : List TLine) (h : DbOk fname rs trail) (ssi : Msafile.Bytes)
+    (hc : createIndex fname (dbBytes rs trail) = some ssi)
+    (hcross : ∀ r ∈ rs, ∀ r' ∈ rs, r.acc ≠ some r'.name) (key : Msafile.Bytes)
+    (hk : ∀ r ∈ rs, r.name ≠ key ∧ r.acc ≠ some key) :
+    onefetch (dbBytes rs trail) ssi key = .notfound := by
+  rw [onefetch_eq_seqFetch fname rs trail h ssi hc hcross key]
+  have : seqFetch rs key = none := by
+    unfold seqFetch
+    rw [Option.map_eq_none_iff, List.find?_eq_none]
+    intro e he
+    obtain ⟨r, hr, hn, ha⟩ := entries_mem rs 0 e he
+    have := hk r hr
+    simp only [Bool.or_eq_true, beq_iff_eq, not_or]
+    exact ⟨by rw [hn]; exact this.1, by rw [ha]; exact this.2⟩
+  rw [this]
+
+/-- (5e) the only clause of `SRec.WF` that is about the fetch path (`noStop`) is implied by the others when the tool skips exactly
+    what the parser skips (`skipKind = 1`: the tree since the repair 7a79192; `Generated/AfetchSrc.lean` is re-derived from the source
+    on every run) -/
+theorem afetch_noStop_of_parser_skip (hk : EaselModel.Generated.AfetchSrc.skipKind = 1) (b : Msafile.Bytes) (h : bodyLineOk b = true) :
+    regurgStop b = false :=
+  noStop_of_parser_skip hk b h
+
+/-- … and NOT with `isspace()` (986143b as it stood, `skipKind = 2`): the sequence line `"\f//x ACGU"` is an ordinary line for the
+    parser and ends the copy of the fetch (the defect found with this model and repaired by 7a79192; regression case in the corpus) -/
+theorem regurg_stops_early_witness : EaselModel.Generated.AfetchSrc.skipKind = 2 →
+    bodyLineOk [12, 47, 47, 120, 32, 65, 67, 71, 85] = true ∧ regurgStop [12, 47, 47, 120, 32, 65, 67, 71, 85] = true := by
+  decide
+
+/-! non-vacuity: a two-alignment database (blank line in front, accession, terminator indented and CR LF-terminated) -/
+def exA : SRec :=
+  { lead := [([], [10])], hdr := ([35, 32, 83, 84, 79, 67, 75, 72, 79, 76, 77, 32, 49, 46, 48], [10]),
+    body := [([35, 61, 71, 70, 32, 73, 68, 32, 111, 110, 101], [10]), ([35, 61, 71, 70, 32, 65, 67, 32, 80, 70, 49], [13, 10]),
+             ([115, 49, 32, 65, 67, 71, 85], [10])],
+    term := ([32, 32, 47, 47], [13, 10]) }
+def exB : SRec :=
+  { lead := [], hdr := ([35, 32, 83, 84, 79, 67, 75, 72, 79, 76, 77, 32, 49, 46, 48], [10]),
+    body := [([35, 61, 71, 70, 32, 73, 68, 32, 116, 119, 111], [10]), ([115, 49, 32, 65, 67, 71, 85], [10])],
+    term := ([47, 47], [10]) }
+
+instance (l : TLine) : Decidable (LineWF l) := by unfold LineWF; infer_instance
+instance (k : Msafile.Bytes) : Decidable (KeyOk k) := by unfold KeyOk EaselModel.Ssi.KeyChars; infer_instance
+
+theorem exA_wf : exA.WF := by constructor <;> decide
+theorem exB_wf : exB.WF := by constructor <;> decide
+
+example : DbOk [100, 98] [exA, exB] [([35, 32, 99], [10])] := by
+  refine ⟨?_, by decide, by decide, ?_, by decide, by decide⟩
+  · intro r hr; simp only [List.mem_cons, List.not_mem_nil, or_false] at hr; rcases hr with rfl | rfl; exact exA_wf; exact exB_wf
+  · intro r hr
+    simp only [List.mem_cons, List.not_mem_nil, or_false] at hr
+    rcases hr with rfl | rfl
+    · refine ⟨by decide, ?_⟩
+      intro a ha
+      have e : exA.acc = some [80, 70, 49] := by decide
+      rw [e] at ha; cases ha; decide
+    · refine ⟨by decide, ?_⟩
+      intro a ha
+      have e : exB.acc = none := by decide
+      rw [e] at ha; cases ha
+
+example : exA.name = [111, 110, 101] ∧ exA.acc = some [80, 70, 49] ∧ exB.name = [116, 119, 111] ∧ exB.acc = none := by decide
+example : ∀ r ∈ [exA, exB], ∀ r' ∈ [exA, exB], r.acc ≠ some r'.name := by decide
+/-- the scan finds `exA` under its accession, with the blank line in front and the indented terminator, LF-normalised -/
+example : seqFetch [exA, exB] [80, 70, 49] = some (linesText exA.lines) ∧ seqFetch [exA, exB] [80, 70] = none := by decide
+/-- the executable model on that database: the index is built, and the fetch by accession returns that text -/
+example : (entries 0 [exA, exB]).map (·.1) = [⟨0, [111, 110, 101], some [80, 70, 49]⟩, ⟨56, [116, 119, 111], none⟩] := by decide
+
+end afetch
 
 end EaselModel.Props.C07
